@@ -1578,6 +1578,7 @@ def generic_rules(prop, index, rep):
         nc_ += unraised_exception_rule(index, rep, rid9, mods)
         nc_ += self_call_binds_rule(index, rep, rid9, mods)
         nc_ += star_args_collision_rule(index, rep, rid9, mods)
+        nc_ += kwargs_read_then_forwarded_rule(index, rep, rid9, mods)
         rep.ob(rid9, "src/dendropy", "%d constructions of repository exception classes examined" % nc_, True, nontrivial=nc_ > 0)
     rid2 = "R%s.V" % prop[1:]
     rep.rule(rid2, "right variable in nested loops: an inner loop over a collection derived from the outer item uses its own item")
@@ -2376,6 +2377,62 @@ def star_args_collision_rule(index, rep, rid, modules):
                 hit = [kw.arg for kw in c.keywords if kw.arg and lead < len(pos) and kw.arg == pos[lead]]
                 rep.check(not (hit and takes_more), rid, f.qualname, "`%s=` together with *args" % (hit[0] if hit else ""), fn_where(f, c), "",
                           "%s calls `%s`: `%s` is the first positional parameter of %s, so the first element of *args lands on it as well - any call that passes a positional argument through fails with TypeError: got multiple values for argument '%s'" % (f.qualname, norm(c)[:70], hit[0] if hit else "", k.qualname, hit[0] if hit else ""))
+    return n
+
+
+def _kw_reads(f, kw):
+    """keys of the **kw dict that f reads: ({key: 'get' | 'pop' | 'index'})"""
+    out = {}
+    for x in ast.walk(f.node):
+        if isinstance(x, ast.Call) and isinstance(x.func, ast.Attribute) and isinstance(x.func.value, ast.Name) and x.func.value.id == kw and x.func.attr in ("get", "pop") and x.args and isinstance(x.args[0], ast.Constant):
+            out.setdefault(x.args[0].value, x.func.attr)
+            if x.func.attr == "pop":
+                out[x.args[0].value] = "pop"
+        elif isinstance(x, ast.Subscript) and isinstance(x.value, ast.Name) and x.value.id == kw and isinstance(x.slice, ast.Constant):
+            out.setdefault(x.slice.value, "index")
+    return out
+
+
+def kwargs_read_then_forwarded_rule(index, rep, rid, modules):
+    """an option a function takes for itself out of **kwargs is taken OUT: a key that is only looked at
+    (`kwargs.get("k")`) while the whole dict is then forwarded (`g(**kwargs)`) travels on to callees; when the chain of
+    own-method forwarders ends in a function without **kwargs that has no parameter `k`, every call that uses the
+    option dies with TypeError: unexpected keyword argument."""
+    n = 0
+    for m in modules:
+        for f in index.functions_in_module(m):
+            if f.node.args.kwarg is None:
+                continue
+            kw = f.node.args.kwarg.arg
+            reads = {k: how for k, how in _kw_reads(f, kw).items() if how == "get"}
+            if not reads:
+                continue
+            fwd = [c for c in calls_in(f.node) if any(k.arg is None and norm(k.value) == kw for k in c.keywords)]
+            for c in fwd:
+                # follow the chain of forwarders
+                cur, curc, depth, accepted, closed = f, c, 0, set(), None
+                while depth < 4:
+                    grade, cands = index.resolve_call(curc, cur)
+                    cs = [x for x in cands if hasattr(x, "node") and isinstance(x.node, ast.FunctionDef)]
+                    if len(cs) != 1 or grade not in ("self", "static"):
+                        break
+                    g = cs[0]
+                    accepted |= {p_ for p_ in g.all_params}
+                    if g.node.args.kwarg is None:
+                        closed = g
+                        break
+                    gkw = g.node.args.kwarg.arg
+                    accepted |= set(_kw_reads(g, gkw))
+                    nxt = [c2 for c2 in calls_in(g.node) if any(k.arg is None and norm(k.value) == gkw for k in c2.keywords)]
+                    if len(nxt) != 1:
+                        break
+                    cur, curc, depth = g, nxt[0], depth + 1
+                if closed is None:
+                    continue
+                n += 1
+                bad = sorted(k for k in reads if k not in accepted)
+                rep.check(not bad, rid, f.qualname, "option %s read from **%s and forwarded to %s" % (bad, kw, closed.name), fn_where(f, c), "",
+                          "%s looks at %s with `%s.get(...)` and then forwards the whole dictionary (`%s`): the keys stay in it, and the chain of calls ends in %s, which takes neither **kwargs nor a parameter of that name - every call that passes the option fails with TypeError: unexpected keyword argument; the option has to be popped" % (f.qualname, bad, kw, norm(c)[:50], closed.qualname))
     return n
 
 
